@@ -156,6 +156,34 @@ def run(ctx: Ctx) -> None:
         ctx.exhaustive = True
         if n[0] < 65536:
             raise MachineryError(f"only {n[0]} cases emitted")
+        # ---- reader histories and near-miss inputs (Envelope!Read is a function of its input alone)
+        pk = Package([mods[1][1]], [exts[0][1]])
+        text_env = pk.to_str(EnvelopeConfig.TEXT)
+        for ws in (" ", "\n", "\t", "\x0b", "\x0c", "\r\n"):
+            ctx.evaluations += 1
+            try:
+                Package.from_str(ws + text_env)
+                r = "ok"
+            except ValueError:
+                r = "ValueError"
+            except Exception as e:  # noqa: BLE001
+                r = type(e).__name__
+            if r != "ValueError":
+                ctx.violation({"mode": "near-miss", "what": "text envelope preceded by white space"}, {"prefix": repr(ws)}, "ValueError (the magic number does not come first)", r,
+                              clause="Envelope!DecodeHeader (magic at offset 0)")
+        comp = pk.to_bytes(EnvelopeConfig(format=EnvelopeFormat.JSON, zstd=3))
+        for cut in (len(comp) // 2, len(comp) - 1, 12):
+            ctx.evaluations += 1
+            try:
+                Package.from_bytes(comp[:cut])
+                ctx.violation({"mode": "history", "what": "truncated compressed envelope accepted"}, {"cut": cut}, "an error", "ok", clause="Envelope!Read")
+            except Exception:  # noqa: BLE001  (which error is zstd's business)
+                pass
+            try:
+                back = Package.from_bytes(comp)                  # a failed decode must not influence the next one
+                _cmp(ctx, {"mode": "history", "what": "valid envelope decoded after a failed decode"}, {"cut": cut}, pk, back)
+            except Exception as e:  # noqa: BLE001
+                ctx.violation({"mode": "history", "what": "valid envelope rejected after a failed decode"}, {"cut": cut}, "round trip", repr(e)[:300], clause="Envelope!Read (no state between calls)")
         # defaults documented on the class
         for nm, c in (("TEXT", EnvelopeConfig.TEXT), ("BINARY", EnvelopeConfig.BINARY)):
             pk = Package([mods[1][1]], [exts[0][1]])
